@@ -12,7 +12,9 @@ def check(ctx):
         def is_subset(c): return c.item == 'is_subset' and 'BTreeSet' in c.name
         def operands_ok(c):
             a = ctx.S.slice_operand(body, c.args[0]); b = ctx.S.slice_operand(body, c.args[1])
-            return a.has_field(PI, 'parameters') and a.has_field('v1::Parameter', 'id') and b.has_field('v1::Parameters', 'entries') and not b.has_field(PI, 'parameters')
+            narrowing = sorted({x.item for x in a.call_objs if x.item in RESTRICTING + ('intersection', 'difference', 'symmetric_difference', 'retain', 'remove', 'split_off')})
+            return a.has_field(PI, 'parameters') and a.has_field('v1::Parameter', 'id') and b.has_field('v1::Parameters', 'entries') and not b.has_field(PI, 'parameters') \
+                and not narrowing and not a.has_field(PI, 'objective') and not a.has_field(PI, 'constraints')
         guard(ctx, 'C10.guard/required-subset-of-given', body, is_subset, True, 'required_ids.is_subset(given_ids)', operand_need=operands_ok)
         # ---- partial evaluation applied to objective and to every constraint, with the given values
         pe_f = [c for c in body.calls if c.item == 'partial_evaluate' and c.is_(trait='Evaluate', self_ty=r'v1::Function$')]
